@@ -751,12 +751,12 @@ pub fn work_list(cfg: &RunCfg) -> WorkList {
         }
     }
     let (atoms, ops, size): (&[&str], &[&str], usize) =
-        if thorough { (&ATOMS_SMALL, &OPS_FULL, 4) } else { (&ATOMS_SMALL, &OPS_QUICK, 3) };
+        if thorough { (&ATOMS_SMALL, &OPS_QUICK, 4) } else { (&ATOMS_SMALL, &OPS_QUICK, 3) };
     for p in corpus::exhaustive(atoms, ops, size) {
         fixed.push(Item::new(&p, "exhaustive"));
     }
     // context x filler
-    let fillers_src = corpus::exhaustive(if thorough { &ATOMS_MED } else { &ATOMS_SMALL }, &OPS_QUICK, if thorough { 3 } else { 2 });
+    let fillers_src = corpus::exhaustive(&ATOMS_SMALL, &OPS_QUICK, if thorough { 3 } else { 2 });
     for ctx in corpus::contexts(feats) {
         for f in &fillers_src {
             let is_alt = f.contains('|') && !f.starts_with('(');
